@@ -34,7 +34,8 @@ func main() {
 		dur = time.Duration(ms) * time.Millisecond
 	}
 	logging.SetLogger(fmtLogger{})
-	t := state.NewTracker("me")
+	// two clients in one process, each with its own tracker: nothing but the logger is shared between them
+	ts := []state.Tracker{state.NewTracker("me"), state.NewTracker("me")}
 	nicks := []string{"me", "a", "b", "c", "d"}
 	chans := []string{"#x", "#y", "#z"}
 	var wg sync.WaitGroup
@@ -45,6 +46,7 @@ func main() {
 		wg.Add(1)
 		go func(g int) {
 			defer wg.Done()
+			t := ts[g%2]
 			x := seed*0x9E3779B97F4A7C15 + uint64(g)*0xBF58476D1CE4E5B9 + 1
 			next := func(n int) int {
 				x ^= x << 13
@@ -73,7 +75,7 @@ func main() {
 				case 4:
 					t.NickInfo(nk, "i", "h", "n")
 				case 5:
-					t.NickModes(nk, "+iw-o")
+					t.NickModes(nk, []string{"+iw-o", "+iQ-o", "+Yi"}[next(3)])
 				case 6:
 					t.NewChannel(ch)
 				case 7:
@@ -89,7 +91,7 @@ func main() {
 				case 9:
 					t.Topic(ch, "t")
 				case 10:
-					t.ChannelModes(ch, "+ovk-l", nk, nk, "key")
+					t.ChannelModes(ch, []string{"+ovk-l", "+oXvk-l", "+Cov"}[next(3)], nk, nk, "key")
 				case 11:
 					_ = t.Me().Nick
 				case 12:
